@@ -29,8 +29,8 @@ def P(pid, foot, mc, random, foot_acts=None, **kw):
     PROPS[pid] = d
 
 
-P('C01', ['sess.uid', 'sess.totpPend', 'sess.smsPend'], ['login', 'remember', 'recover', 'register', 'oauth'], ['core', 'full'],
-  fam_consts={'oauth': {'Pids': '{"u1","o_pa_x","o_pa_y","o_pb_x","o_pb_y"}', 'MaxDepth': 5}})
+P('C01', ['sess.uid', 'sess.totpPend', 'sess.smsPend'], ['login', 'remember', 'recover', 'register', 'oauth', 'otp', 'twofa'], ['core', 'full'],
+  fam_consts={'oauth': {'Pids': '{"u1","o_pa_x","o_pa_y","o_pb_x","o_pb_y"}', 'MaxDepth': 5}, 'otp': {'MaxIss': 7}, 'twofa': {'MaxDepth': 5}})
 P('C03', ['sess.uid', 'resp.ran'], ['login', 'recover', 'twofa'], ['core', 'twofa'], fam_consts={'twofa': {'MaxDepth': 5}})
 P('C04', ['db.att', 'db.winLeft', 'db.lockLeft'], ['lock', 'login'], ['core', 'full'])
 P('C05', ['db.conf', 'db.cTok', 'db.rTok', 'db.rLeft', 'db.pw'], ['recover', 'register', 'login'], ['core', 'full'],
@@ -50,7 +50,8 @@ PROPS['C17']['assumptions'] = PROPS['C17']['assumptions'] + [
     'the scanner looks for every plaintext secret the harness typed or was shown (passwords incl. a bcrypt-shaped one, one-time passwords, '
     'recovery codes, remember cookies, mailed tokens; raw, base64 std/url, hex, URL-escaped, and decoded token bytes) in every stored string '
     'field, the remember-token table and the log lines of each step; SMS codes and the TOTP shared secret are outside the statement',
-    'histories are fault free (the property\'s quantifier); one third of the random configurations use a store whose Load resolves PIDs case-insensitively']
+    'besides the fault-free histories, random scenarios with injected backend failures are scanned (the error paths log and store too); a mail whose delivery failed is still a secret the harness knows and looks for',
+    'one third of the random configurations use a store whose Load resolves PIDs case-insensitively']
 
 OPIDS = {'Pids': '{"u1","o_pa_x","o_pa_y","o_pb_x","o_pb_y"}'}
 P('C02', ['sess.uid', 'sess.twofa', 'sess.totpPend', 'sess.smsPend', 'sess.smsCode', 'sess.smsFresh', 'resp.sms', 'db.rcLeft'],
@@ -83,6 +84,7 @@ PROPS['C15'] = dict(engine='redirect', level='model_checking', foot=[], quick={}
                                  'all strings go through the password flow in form and JSON mode; the otp/totp/sms/oauth2 flows get a seeded 30% sample of the strings'])
 
 PROPS['C19']['also'] = ['rules']
+PROPS['C17']['also'] = ['faultscan']
 PROPS['C07']['also'] = ['codecs']
 PROPS['C14']['also'] = ['codecs']
 PROPS['C07']['assumptions'] = PROPS['C07']['assumptions'] + ['codec clause: every PID over {a ; ,} up to length 3 logs in with remember-me and re-authenticates from the cookie alone (nonces are the library\'s random ones; those containing the separator are counted)']
@@ -115,4 +117,4 @@ PROPS['C20'] = dict(engine='conc', level='model_checking', foot=[], quick={}, th
                                  'SMTPMailer dials 127.0.0.1:9 (refused); the mime boundary generator runs before the dial'])
 
 import components
-COMPONENT = {'mwtable': components.mwtable, 'clientstate': components.clientstate, 'redirect': components.redirect, 'rules': components.rules, 'codecs': components.codecs, 'faults': components.faults, 'ni': components.noninterference, 'conc': components.concurrency}
+COMPONENT = {'mwtable': components.mwtable, 'clientstate': components.clientstate, 'redirect': components.redirect, 'rules': components.rules, 'codecs': components.codecs, 'faults': components.faults, 'ni': components.noninterference, 'conc': components.concurrency, 'faultscan': components.faultscan}
